@@ -449,6 +449,16 @@ def _c10_cross(results, counters):
                              'case': int(tag.split('_')[1]),
                              'detail': {'program': tag, 'step': k, 'python': ta[:400], 'c': tb[:400],
                                         'previous': (a['trace'][max(0, k - 3):k] if a.get('trace') else [])}}))
+        # the last steps of every program exercise the recorded py/C divergences, each compared on its own
+        fa, fb = a.get('final') or [], b.get('final') or []
+        for i in range(max(len(fa), len(fb))):
+            ta = fa[i] if i < len(fa) else '?'
+            tb = fb[i] if i < len(fb) else '?'
+            counters['final_steps_compared'] = counters.get('final_steps_compared', 0) + 1
+            if ta != tb:
+                out.append((jc, {'kind': 'py-c-divergence', 'mechanism': classify_divergence(ta, tb),
+                                 'case': int(tag.split('_')[1]),
+                                 'detail': {'program': tag, 'step': 'final+%d' % i, 'python': ta[:400], 'c': tb[:400]}}))
     counters['programs_compared'] = compared
     counters['steps_compared'] = steps
     return out
@@ -458,6 +468,8 @@ def classify_divergence(ta, tb):
     """Known py/C divergences by mechanism (see known_findings.json)."""
     if '[custom providedBy]' in ta and ta.endswith('-> True') and tb.endswith('-> False'):
         return 'custom_providedBy_ignored_by_c'
+    if '[keyword call]' in ta and 'EXC:' not in ta and tb.endswith('-> EXC:TypeError'):
+        return 'c_functions_take_no_keywords'
     return None
 
 
